@@ -721,7 +721,7 @@ def main():
                            "i < size-1), sum, unique over lists and scalars, membership in a list, size, fixed element references; histories of "
                            "randomize / append / extend / clear / setitem; after every op len(), size, indexing and iteration are read"})
     rc = ck.finish(obligations=obligations,
-                   assumptions=["as C01 for the solve itself", "lists of objects are generated by the object-tree checks (C03, C07, C08, C17), not here; enum lists and nested foreach are not generated",
+                   assumptions=["as C01 for the solve itself", "lists of objects are generated by the object-tree checks (C03, C07, C08, C17), not here; enum lists are exercised by C18; nested foreach over per-object scalar lists by a hand-written family with an exact oracle (nested_scalar_foreach), outside the model",
                                 "the property is evaluated by the driver on exactly the exposed elements (l.spec), independently of how the "
                                 "implementation elaborated the constraints"],
                    theorems_lost=THEOREMS)
